@@ -79,11 +79,10 @@ Example tie_C20_raises_basis__full_from_partial :
   raises_basis__full_from_partial = [("ValueError", "not elems.isorthonorm"); ("ValueError", "traceless and (not elems.istraceless)"); ("ValueError", "labels is not None and len(labels) not in (len(elems), elems.d ** 2)")].
 Proof. reflexivity. Qed.
 
-(* TODO after the lead re-pins Model/Expected.v for /repo 7378d31: add the hash conjuncts of
-   pulse_sequence__concatenate_Hamiltonian and pulse_sequence_concatenate (their raise-site catalogues are
-   pinned as literals above). *)
 Example tie_C20_hashes :
-  Src.h_pulse_sequence__parse_args = Expected.h_pulse_sequence__parse_args
+  Src.h_pulse_sequence__concatenate_Hamiltonian = Expected.h_pulse_sequence__concatenate_Hamiltonian
+  /\ Src.h_pulse_sequence_concatenate = Expected.h_pulse_sequence_concatenate
+  /\ Src.h_pulse_sequence__parse_args = Expected.h_pulse_sequence__parse_args
   /\ Src.h_pulse_sequence__parse_Hamiltonian = Expected.h_pulse_sequence__parse_Hamiltonian
   /\ Src.h_pulse_sequence_PulseSequence___init__ = Expected.h_pulse_sequence_PulseSequence___init__
   /\ Src.h_pulse_sequence_PulseSequence___getitem__ = Expected.h_pulse_sequence_PulseSequence___getitem__
